@@ -504,6 +504,18 @@ func (k msgServer) UpdateConsumer(goCtx context.Context, msg *types.MsgUpdateCon
 		}
 
 		if k.IsConsumerPrelaunched(ctx, consumerId) {
+			if msg.InitializationParameters == nil {
+				// the stored initial height has to stay consistent with the new chain id
+				storedInitializationParameters, err := k.Keeper.GetConsumerInitializationParameters(ctx, consumerId)
+				if err != nil {
+					return &resp, errorsmod.Wrapf(ccvtypes.ErrInvalidConsumerState,
+						"cannot get consumer initialized parameters, consumerId(%s): %s", consumerId, err.Error())
+				}
+				if err = types.ValidateInitialHeight(storedInitializationParameters.InitialHeight, msg.NewChainId); err != nil {
+					return &resp, errorsmod.Wrapf(types.ErrInvalidMsgUpdateConsumer,
+						"new chain id requires new initialization parameters: %s", err.Error())
+				}
+			}
 			chainId = msg.NewChainId
 			k.SetConsumerChainId(ctx, consumerId, chainId)
 		} else {
